@@ -177,6 +177,34 @@ func runC19(c *eng.Ctx) {
 			}
 		}
 	}
+	// quantifiers: collection selector in every spelling (a JSON pointer of 1..3 segments included) x binding mode x a body whose
+	// selectors use the same spelling, alone and under not / and
+	for _, all := range []bool{false, true} {
+		for _, path := range paths {
+			for mode := 0; mode < 4; mode++ {
+				for spell := 0; spell < 4; spell++ {
+					unit++
+					if !c.Mine(unit) || !c.Want("u", unit) {
+						continue
+					}
+					if _, _, ok := spellSel(path, spell); !ok {
+						continue
+					}
+					q := &Quant{All: all, Sel: path, Mode: mode, Idx: "k", Val: "v", Body: &Bin{Or: true, L: &Match{Sel: []string{"v", "cpu%"}, Op: OpEq, Lit: "50%"}, R: &Match{Sel: []string{"k"}, Op: OpNotEmpty}}}
+					if mode == BindIndex {
+						q.Body = &Match{Sel: []string{"k"}, Op: OpMatches, Lit: "%d"}
+					}
+					for _, e := range []any{q, &Not{X: q}, &Bin{Or: false, L: &Match{Sel: path, Op: OpEmpty}, R: q}} {
+						p := &printer{o: rendOpts{ws: wsStyles[1], selSpell: spell, litStyle: StyleQuoted, parenNode: -1, notnot: -1}, ok: true}
+						src := p.print(e, precOr, true)
+						if p.ok {
+							checkSrc(src, true)
+						}
+					}
+				}
+			}
+		}
+	}
 	// Selector.String on constructed selectors
 	if c.Mine(0) && c.Want("u", 0) {
 		parts := []string{"a", "b c", "", "0", "x/y", "é"}
